@@ -483,13 +483,15 @@ def rule_digit_extraction(fx, rep):
                             events[-1] = ('acc', last[2], pt)
                             return True
                         # the same through a slice view of the bucket vector: buckets[idx] as a place
-                        if isinstance(tgt, exp.Ref) and tgt.proj and tgt.proj[-1][0] == 'i':
+                        if isinstance(tgt, exp.Ref) and tgt.proj and tgt.proj[-1][0] in ('i', 'iv', 'ci'):
                             base = fr._project(fr.store.get(tgt.root, TOP), tgt.proj[:-1])
                             for _ in range(4):
                                 if isinstance(base, exp.Ref):
                                     base = fr._project(fr.store.get(base.root, TOP), base.proj)
-                            if base == 'BUCKETS':
-                                events.append(('acc', fr.store.get(tgt.proj[-1][1]), fr.deref_operand(args[1])))
+                            if isinstance(base, str) and base == 'BUCKETS':
+                                last_ = tgt.proj[-1]
+                                idxv = fr.store.get(last_[1]) if last_[0] == 'i' else (last_[1] if last_[0] == 'iv' else Int(last_[1]))
+                                events.append(('acc', idxv, fr.deref_operand(args[1])))
                                 return True
                     if c.get('trait') == 'CurveProjective' and nm == 'double':
                         events.append(('double',))
